@@ -52,6 +52,8 @@ man = {
      'serves_properties': [c['property_id'] for c in checks if c['engine'] == 'chartgen+model']},
     {'name': 'detsched', 'path': 'vt/detsched.py', 'kind_free_text': 'deterministic cooperative scheduler over the real miros threads (sys.settrace line/opcode yield points, cooperative shims for Thread/Queue/PriorityQueue/time/RLock, virtual time), history checkers',
      'serves_properties': [c['property_id'] for c in checks if c['engine'] == 'detsched']},
+    {'name': 'sysx', 'path': 'vt/sysx.py', 'kind_free_text': 'systematic delay-bounded (depth-first) enumeration of the schedules of small scenarios on top of detsched: every schedule that deviates at most k times from a deterministic default scheduler',
+     'serves_properties': ['C05', 'C25', 'C27', 'C28', 'C29', 'C30']},
     {'name': 'seq', 'path': 'vt/checks', 'kind_free_text': 'sequential generated-history monitors with executable reference models',
      'serves_properties': [c['property_id'] for c in checks if c['engine'] == 'seq']},
   ],
